@@ -41,7 +41,8 @@ PROPS = {
                 "right below a hot position; commitment representation plain / "
                 "rescaled / sign-flipped / both; shared commitment pointers; labels '', short, 900..2048 bytes; processes "
                 "pinned to 1..16 CPUs by taskset (runtime.NumCPU follows) and GOMAXPROCS set below / above the CPU count. Non-trivial = at least two distinct "
-                "evaluation indices; distinct by the full case." + NOISE_NOTE,
+                "evaluation indices; distinct by the full case." + NOISE_NOTE
+                + " Round-4 additions: openings with equal claimed values may pass ONE shared *fr.Element (share_y), polynomial kinds whose non-zero evaluations in one half sum to zero ('cancel') or that are piecewise constant ('steps').",
         "oracle": "round trip: CheckMultiProof(fresh transcript, same label, freshly rebuilt copies of the original commitments in the "
                   "generated representation / sharing pattern) == (true, nil); equal next challenge of both transcripts",
         "assumptions": COMMON_ASSUMPTIONS + ["NumCPU > 16 cannot be produced in this sandbox"],
@@ -58,7 +59,8 @@ PROPS = {
                 "calls, then with every commitment re-represented) plus direct ipa.CreateIPAProof cases (polynomial kind x "
                 "point class {0,1,2,127,128,254,255,256,257,2^64-1,2^64,2^128,r-1..r-3,0..600,uniform} x representation); "
                 "process matrix NumCPU x GOMAXPROCS by taskset/env. Non-trivial = >= 2 distinct evaluation indices, or an IPA "
-                "proof at an out-of-domain point; distinct by the full case." + NOISE_NOTE,
+                "proof at an out-of-domain point; distinct by the full case." + NOISE_NOTE
+                + " Round-4 additions: forced statements of 1025 and 2049 openings (1030 in thorough), a forced statement with adjacent identical openings (same commitment, same index; own object, shared pointer, other representation), evaluation points z = i +- 1/A'(i) and i + 2/A'(i) (a barycentric denominator equals 1, -1, 2).",
         "oracle": "differential: serialized proof bytes == bytes of the independent reference prover, and the next transcript "
                   "challenge == the reference transcript's; the reference does not depend on CPU count, schedule, "
                   "representation or history",
@@ -76,7 +78,8 @@ PROPS = {
                 "len(ys)/len(zs) +-1, zero openings, len(L)/len(R) in {0,1,7,9,16}; arbitrary valid elements/scalars; the "
                 "all-zero pseudo-element in any position), and the same catalogue one level down for ipa.CheckIPAProof at "
                 "an in- or out-of-domain point. Every tuple is judged by both verifiers. Non-trivial = a transformed tuple "
-                "that the reference rejects (or classifies as wrong shape); distinct by (statement, transformation)." + NOISE_NOTE,
+                "that the reference rejects (or classifies as wrong shape); distinct by (statement, transformation)." + NOISE_NOTE
+                + ' Round-4 additions: bit-identical commitments and equal claimed values are handed over through one shared pointer in a quarter of the cases; compensating pairs of changes at two openings of the same index (y_pair, C_pair); forced statements of 1024, 1025, 1030 and 2049 openings (4097 in thorough) with changes applied to the last openings.',
         "oracle": "independent reference verifier (explicit basis folding, defining formula for b): go-ipa must return the "
                   "same boolean with err == nil for well-shaped input, (false, err != nil) for wrong shapes, never true for "
                   "a tuple containing the all-zero pseudo-element, never panic",
@@ -94,7 +97,8 @@ PROPS = {
         "rule": "polynomial kind x evaluation point class {0,1,2,127,128,254,255,256,257,2^64-1,2^64,2^128,r-3..r-1,0..600,"
                 "uniform} x 3..6 claimed results {correct,+1,-1,0,-correct,neighbouring evaluations,2*correct,the point itself,"
                 "uniform}; points 254,255,256,257,0,r-1 are forced into every shard. Non-trivial = point outside the domain or "
-                "in 254..257 or at least one wrong result tested; distinct by the full case." + NOISE_NOTE,
+                "in 254..257 or at least one wrong result tested; distinct by the full case." + NOISE_NOTE
+                + " Round-4 additions: evaluation points z = i + c/A'(i), c in {1,-1,2} (the i-th barycentric denominator is c), forced polynomials whose upper / lower half has non-zero evaluations summing to zero, and piecewise-constant polynomials.",
         "oracle": "p(point) by reference Lagrange evaluation in math/big (inside the domain asserted to be the evaluation "
                   "itself); CheckIPAProof must return true iff result == p(point); the reference verifier must accept the proof",
         "assumptions": COMMON_ASSUMPTIONS,
@@ -109,7 +113,8 @@ PROPS = {
                 "distinct by construction) = digit >= half range or a carry arrives. (2) rapid vectors: length "
                 "{0..8,16,17,64,127..129,200,255,256,uniform} x {sparse, dense, dense with recipe scalars}; scalar recipes "
                 "{0,1,small,r-1..r-4,2^k,2^k-1,limb patterns,8/16-bit window recipes with carry chains,uniform}; non-trivial = "
-                "length != 256 or a recipe coefficient; distinct by the full case." + NOISE_NOTE,
+                "length != 256 or a recipe coefficient; distinct by the full case." + NOISE_NOTE
+                + ' Round-4 addition: every scalar s = 2*d*2^(w*top) - r in (0, r) at positions 0..6, 100, 255 (3710 values per 16-bit position): after recoding the running sum equals the table entry added last, so the final addition is a doubling.',
         "oracle": "reference sum v_i*G_i over the reference CRS (incremental walk re-derived every 1009th value by a direct "
                   "math/big scalar multiplication), compared as group element and as compressed bytes; metamorphic laws "
                   "Commit(a+b)=Commit(a)+Commit(b), Commit(k*a)=k*Commit(a), coefficient update = +delta*G_i, agreement with "
@@ -126,7 +131,8 @@ PROPS = {
                 "subgroup, off-curve x, constants 0,1,2,p-1,p,p+1,2p,2^255,2^256-1,r,(p+-1)/2, uniform, valid with one bit "
                 "flipped}; for the uncompressed form the y half from {larger root, smaller root, y+p, y+1, 0, uniform, x}; "
                 "lengths 0..80; plus a deterministic sweep of all constant pairs. Non-trivial = accepted input, or rejected "
-                "input failing exactly one clause of the predicate; distinct by (form, bytes)." + NOISE_NOTE + CONC_NOTE,
+                "input failing exactly one clause of the predicate; distinct by (form, bytes)." + NOISE_NOTE + CONC_NOTE
+                + ' Round-4 additions: abscissas whose two ordinates are the nearest ones to p/2 (they share their upper limbs), forced in every shard and drawn; a second part decodes the 16 / 17 group elements of a serialized IPA proof / multiproof through ONE Read call, with 0, 1, 2, 3, 4 or 16 of them replaced by one defect class (same or different values): accepted exactly when every encoding is individually acceptable, decoded elements are in the subgroup and re-encode to the input.',
         "oracle": "reference acceptance predicate (length, canonical coordinates, on curve via math/big ModSqrt, 1-a*x^2 a "
                   "non-zero square via Jacobi, canonical y) evaluated clause by clause; on accept: exact affine equality with "
                   "the reference decode, r*P in the identity class by reference arithmetic, re-encoding returns the input; no "
@@ -147,7 +153,8 @@ PROPS = {
                 "projective rescaling and sign flip through the hook, adding the decoded 2-torsion point, collision makers "
                 "(P+Q-Q, (s+t)P vs sP+tP, -P vs (r-1)P, P-P, Set). All pairs of the final pool are compared. Non-trivial = a "
                 "history whose pool contains both a pair that is equal with different (X,Y,Z) triples and an unequal pair; "
-                "distinct by the history." + NOISE_NOTE + CONC_NOTE,
+                "distinct by the history." + NOISE_NOTE + CONC_NOTE
+                + ' Round-4 addition: elements produced by a caller-built table MSM (NewPrecompMSM over a basis with repeated and opposite points; the running sum passes through the identity before another term arrives).',
         "oracle": "reference arithmetic on the raw coordinates (hook): P.Equal(Q) == Q.Equal(P) == reference class equality == "
                   "(P.Bytes() == Q.Bytes()); Bytes() == reference compression; decode(Bytes()) succeeds and equals P; reflexive; "
                   "never true against the zero value; every operation result is a valid curve point",
@@ -163,7 +170,8 @@ PROPS = {
                               (1, None), (16, None), (16, 5), (7, None), (16, None), (2, None), (16, 7), (16, None))]},
         "rule": "pool histories as in C07 (3..24 calls) plus a batch of length {0,1,2,3,15,16,17,100,255,256,257,300,uniform<=300} "
                 "of pool pointers (random with repeats / sequential / triplicated). Non-trivial = the pool contains an element "
-                "with Z != 1 (results of MSM, table, GLV, rescaling paths); distinct by the case." + NOISE_NOTE + CONC_NOTE,
+                "with Z != 1 (results of MSM, table, GLV, rescaling paths); distinct by the case." + NOISE_NOTE + CONC_NOTE
+                + ' Round-4 additions: constructed subgroup elements whose x/y lies just below or above a multiple of r (m = 1..3) or just below p, forced in every shard; distinct elements whose reduced values collide are a labelled class, not a failure.',
         "oracle": "reference x/y mod p read little-endian mod r from the raw coordinates; equal values iff reference-equal "
                   "elements over all pool pairs; BatchMapToScalarField equals the single call position by position, reports a "
                   "length mismatch, and leaves every input the same group element; destination scalars start dirty",
@@ -179,7 +187,8 @@ PROPS = {
                 "patterns, window recipes, small Montgomery representation, uniform) and a list of GLV edge values (lambda, "
                 "lambda+-1, r-lambda, j*lambda, 2^63..2^252 +-, r/2, sqrt r); aliasing pattern {fresh receiver, receiver=p1, "
                 "receiver=p2, p1=p2, all three}; deterministic sweep of every edge scalar on identity/(0,-1)/G/CRS in all "
-                "representations. Non-trivial = aliased receiver, non-plain or identity-class operand, or an edge scalar." + NOISE_NOTE + CONC_NOTE,
+                "representations. Non-trivial = aliased receiver, non-plain or identity-class operand, or an edge scalar." + NOISE_NOTE + CONC_NOTE
+                + ' Round-4 additions: operands standing in a relation (Q = P, -P, 2P, 3P, P+G held in a separate object and in any representation, so P + Q meets the doubling / cancelling cases of the addition law through the (x,-y) form as well) and related scalars (t = -s, t = s, t = 1 - s).',
         "oracle": "differential against the reference group law (fast backend on all cases, math/big backend on a 1/16 sample), "
                   "compared up to Banderwagon equivalence on raw coordinates; results must be valid curve points; operands that "
                   "are not the receiver remain the same group element; laws (s+t)P=sP+tP, s(P+Q)=sP+sQ, 0*P=id, (r-1)P+P=id, P-P=id, "
@@ -201,7 +210,8 @@ PROPS = {
                 "pinned to 1..16 CPUs. Internal path (hook): every c in {4..16} x splitFirstChunk x n in {1,2,3,7,64,143} "
                 "deterministically plus rapid cases, c=20 and c=21 once each (c=22 and more in thorough), scalars through "
                 "partitionScalars. Non-trivial = n >= 2 with a split, the first-chunk split path, a window width other than "
-                "6, or a digit/limb recipe; distinct by the case." + NOISE_NOTE,
+                "6, or a digit/limb recipe; distinct by the case." + NOISE_NOTE
+                + " Round-4 additions: point lists whose Z coordinates multiply to exactly 1 without being 1 ('tieZ'), the receiver being one of the input elements, all (20|21, split|no split) huge-window combinations in quick and 22 in thorough; thorough also fuzzes explicit scalars through the digit partitioning (FuzzC09Digits).",
         "oracle": "sum s_i*P_i = (sum s_i*a_i mod r)*G from the known discrete logs, one reference scalar multiplication, compared "
                   "by reference equality on raw coordinates; length mismatch must return an error; "
                   "termination: a watchdog 3 orders of magnitude above the normal cost; a call that does not return while every "
@@ -219,7 +229,8 @@ PROPS = {
                 "recipe, points from every source and representation (optionally appended through one reused variable), four "
                 "protocol labels; each history is run twice and once more with one change (label / message / swap of two "
                 "self-delimiting operations / protocol label / dropped operation). Non-trivial = >= 2 challenges, or > 1024 "
-                "pending bytes, or an empty message, or a non-normalised point; distinct by the history." + NOISE_NOTE + CONC_NOTE,
+                "pending bytes, or an empty message, or a non-normalised point; distinct by the history." + NOISE_NOTE + CONC_NOTE
+                + " Round-4 addition: after every call the caller's label and message buffers are overwritten (what is absorbed must be the bytes at call time, not a retained slice).",
         "oracle": "model-based: the reference transcript (one byte buffer + crypto/sha256, little-endian reduction mod r, "
                   "re-absorption under the challenge label, anchored to the five published vectors) executes the same history; "
                   "every challenge must be equal; identical histories give identical challenges; a change that alters the "
@@ -233,7 +244,8 @@ PROPS = {
         "thorough": {"shards": 32, "timeout": 10800, "matrix": [{"cpus": c} for c in range(1, 17)]},
         "rule": "exhaustive grid (n, m): the full 0..2048 x 1..300 in both tiers; plus the default worker limit for every n under NumCPU in 1..16 "
                 "(taskset); plus rapid cases with per-invocation delays (Gosched bursts / short sleeps) inside the work "
-                "function. Non-trivial (counted, distinct by construction for the grid) = n > m and n mod m != 0.",
+                "function. Non-trivial (counted, distinct by construction for the grid) = n > m and n mod m != 0."
+                + ' Round-4 additions: iteration counts far beyond the grid (4096 ... 2^62, +-3) with worker limits 0, 1, 3, 16, 17, 257, 4099, forced and drawn.',
         "oracle": "validity predicate over the recorded multiset of (start,end): sorted ranges contiguous and disjoint, union "
                   "exactly [0,n), none empty/inverted/out of bounds, count <= min(n,m); finished == started at the moment "
                   "Execute returns and no invocation starts afterwards; watchdog",
@@ -267,7 +279,8 @@ PROPS = {
                 "with the other blocks 0 / 0xFF / seed-dependent (enumerated completely in both tiers, for SqrtPrecomp and for "
                 "GetPointFromX with both sign choices); all 2^k-th roots of unity; 0, 1, p-1; rapid cases: dyadic with per-block "
                 "classes, constants (small, p-k, 2^k, 0..100000), uniform, explicit squares and non-squares, x coordinates of "
-                "valid subgroup points, abscissas whose two ordinates lie next to p/2 (share their upper limbs). Non-trivial = a non-trivial 2-adic component (dlog != 0) or a root of unity." + CONC_NOTE,
+                "valid subgroup points, abscissas whose two ordinates lie next to p/2 (share their upper limbs). Non-trivial = a non-trivial 2-adic component (dlog != 0) or a root of unity." + CONC_NOTE
+                + ' Round-4 additions: values whose INTERNAL (Montgomery) limbs are a small word or a limb-aligned pattern (value = pattern * 2^-256 mod p), forced and drawn; thorough also fuzzes 32-byte values (FuzzC17Sqrt).',
         "oracle": "math/big: residue iff Jacobi = 1 (or v = 0); returned root squared == v; nil iff non-residue; input of the square root unchanged; "
                   "the first square roots of every process are taken by 16 goroutines at once; GetPointFromX (fresh or reused "
                   "argument variable) nil iff (a x^2-1)/(d x^2-1) is a non-residue (ModSqrt), otherwise exactly (x, larger|smaller "
@@ -291,7 +304,8 @@ PROPS = {
                 "the field (multiples of r-1, y + k(r-1), y<<130); BatchInvert of length 0..5000 with zeros at chosen positions; plus rapid cases (boundary / sparse-bit / small-value "
                 "/ uniform operands, all aliasing patterns). Run in two build configurations (default with ADX detection, "
                 "-tags noadx), each also calling the portable generic functions through the hook. Non-trivial = (configuration, "
-                "boundary operand pair / element) (counted, distinct by construction)." + CONC_NOTE,
+                "boundary operand pair / element) (counted, distinct by construction)." + CONC_NOTE
+                + ' Round-4 additions: BatchInvert lengths 1023..1025, 2049, 4097; thorough also fuzzes (operation, aliasing, raw operands) with coverage guidance (FuzzC15Ops).',
         "oracle": "math/big on the raw limbs: value = limbs*2^-256 mod r, operation on integers mod r, expected limbs = value*2^256 "
                   "mod r; results must be bit-identical to that fully reduced representation; Sqrt nil iff Jacobi = -1 and "
                   "root^2 = x; inverse of 0 is 0; operands unchanged",
@@ -310,7 +324,8 @@ PROPS = {
                 "included) with aliasing pattern {all distinct, all the same pointer, blocks of 3, two interleaved, random "
                 "repeats}; for the error path one un-normalisable element (zero value or Z=0) at a drawn position, and "
                 "deterministically at EVERY position of lists of length 1,2,3,4,5,8,17. Non-trivial = list with a repeated "
-                "pointer and a non-normalised element; distinct by the case." + NOISE_NOTE + CONC_NOTE,
+                "pointer and a non-normalised element; distinct by the case." + NOISE_NOTE + CONC_NOTE
+                + ' Round-4 additions: list lengths 63..65, 1023..1025, 4097; representations chosen so that the product of the Z (or Y) coordinates over the list is exactly 1 or -1 without any of them being 1.',
         "oracle": "ElementsToBytes[i] == e_i.Bytes(); BatchToBytesUncompressed[i] == e_i.BytesUncompressedTrusted(); "
                   "BatchMapToScalarField[i] == single; the serialisers leave every element the same group element; BatchNormalize: "
                   "Z == 1 (hook) and reference-Equal to before; on the error path an error and every element bit-for-bit unchanged; "
@@ -329,7 +344,8 @@ PROPS = {
                 "{1,2,7,31,32,33,64,100,575,576}, final data returned together with io.EOF, error injected at offset k; writers "
                 "failing at the j-th Write call. Deterministic sweeps: every field x every replacement class, every write-fault "
                 "position, an injected read error at every offset 0..577, trailing bytes through every reader kind. "
-                "Non-trivial = rejected for exactly one reason, or accepted through a non-trivial reader, or a write-fault case." + NOISE_NOTE + CONC_NOTE,
+                "Non-trivial = rejected for exactly one reason, or accepted through a non-trivial reader, or a write-fault case." + NOISE_NOTE + CONC_NOTE
+                + ' Round-4 additions: the same invalid class in TWO fields at once (pairs inside L, inside R, across, and with D; an even number of wrong-subgroup points), final scalars whose limbs are one below / equal to / one above the limbs of r (all 81 combinations deterministically, 5^3*3 drawn).',
         "oracle": "reference parser: exactly 576 (544 consumed) bytes, every point a valid canonical subgroup encoding (reference "
                   "decoder), scalar < r, the stream delivers all bytes then EOF; Read succeeds iff the reference accepts; on "
                   "success decoded fields equal the reference decode, Write reproduces the bytes, Read(Write(p)).Equal(p); a "
@@ -352,7 +368,8 @@ PROPS = {
                 "operands are config elements, proof Write/Read/Equal), every argument passed by pointer or slice snapshotted; "
                 "a fixed proving+verifying probe call replayed at 1..3 drawn positions; plus one deterministic history with every "
                 "kind of call per shard. Non-trivial = history containing an aliasing shape (>= 2 openings sharing an index, or a "
-                "reused argument object); distinct by the history.",
+                "reused argument object); distinct by the history."
+                + ' Round-4 additions: decoding other bytes (complete, or truncated so that Read fails half way) into a by-value COPY of a proof object, which shares its L/R arrays with the original; a forced history proving about 1030 openings through distinct non-normalised commitment objects.',
         "oracle": "history invariant: after every call the SHA-256 fingerprint of SRS, Q, weight tables (hook), exported constants "
                   "(Generator, Identity, bandersnatch.Identity, IdentityExt, CurveParams), label bytes up to capacity (hook), a reflective walk of the WHOLE "
                   "configuration object (unexported and future fields included) and 4096 sampled MSM table entries is unchanged; every caller-supplied input is bit-for-bit unchanged (commitments "
@@ -392,7 +409,8 @@ PROPS = {
                 "random} (all 5^4 deterministic combinations swept), uniform, sparse, encodings of uniform scalars) plus a "
                 "deterministic sweep of every boundary value +-2; each string is given to SetBytes, SetBytesLE, "
                 "SetBytesLECanonical and ReadScalar twice on the same buffer. Non-trivial = length != 32 or integer value "
-                "(either endianness) >= r; distinct by the byte string." + CONC_NOTE,
+                "(either endianness) >= r; distinct by the byte string." + CONC_NOTE
+                + ' Round-4 additions: values k*r +- d for k = 0..9 (and multiples far beyond 2^256 for longer strings) with d from 0 to about 2^190; the input slice is a window of a larger caller-owned array whose bytes behind the slice are checked after every call.',
         "oracle": "math/big: int(bytes) mod r on raw Montgomery limbs; canonical decoder accepts iff int < r; input buffer "
                   "compared before/after; second decode equals first; encoders compared with big-endian/little-endian "
                   "FillBytes",
